@@ -138,6 +138,25 @@ fn grid(quick: bool) -> Vec<Case> {
             }
         }
     }
+    // deep precisions: every digit a binary64 value has (up to 1074 fractional positions for
+    // %f, 767 significant digits for %e) around the implementation's internal limits
+    let deep_vals = [5e-324, 2.2250738585072014e-308, 1e-300, 3e-200, 1e-100, 0.1, 1.0 / 3.0, 3.14159, 0.5, 1e15 + 0.25, 123456.789e-250];
+    let deep_precs: &[usize] = if quick { &[30, 340, 767, 768, 769, 800, 1074, 1100, 1101, 1200] } else { &[25, 30, 50, 100, 340, 400, 700, 766, 767, 768, 769, 770, 800, 1000, 1073, 1074, 1075, 1099, 1100, 1101, 1102, 1200, 2000] };
+    for conv in ['e', 'E', 'f', 'F', 'g', 'G'] {
+        for flags in ["", "#", "+0"] {
+            for w in [None, Some(1300)] {
+                for p in deep_precs {
+                    for v in deep_vals {
+                        for v in [v, -v] {
+                            if let Some(c) = make_case(flags, w, Some(Some(*p)), conv, &Val::Float(v)) {
+                                out.push(c);
+                            }
+                        }
+                    }
+                }
+            }
+        }
+    }
     out
 }
 
